@@ -110,6 +110,10 @@ func (s *sys) resolve(o *op) bool {
 				return false
 			}
 		}
+	case "closezero":
+		// the record of a channel that was closed before it ever got a short channel
+		// id appears in the channel store (once)
+		return u.Scidless && !e.zeroClosed
 	case "res":
 		if !outOK(o.out) {
 			return false
@@ -157,11 +161,12 @@ func (e *env) clone() *env {
 	}
 	n.next = append([]int{}, e.next...)
 	n.cmt = append([]int{}, e.cmt...)
+	n.zeroClosed = e.zeroClosed
 	return n
 }
 
 func (e *env) copyFrom(o *env) {
-	e.chanState, e.res, e.next, e.cmt = o.chanState, o.res, o.next, o.cmt
+	e.chanState, e.res, e.next, e.cmt, e.zeroClosed = o.chanState, o.res, o.next, o.cmt, o.zeroClosed
 }
 
 // ---------------------------------------------------------------------------
@@ -203,6 +208,27 @@ func errClass(err error) string {
 		return "crashed"
 	}
 	return "err:" + err.Error()
+}
+
+// Argument buffers belong to the caller: the link re-uses the backing array of its
+// keystone batch (l.keystoneBatch[:0]) and of its closed-circuit list for the next
+// call, so the map must not keep references into them. Every slice handed to
+// OpenCircuits / DeleteCircuits is overwritten with foreign keys as soon as the call
+// returns; a retained reference shows up as a foreign key in the very next
+// observation. (The *PaymentCircuit objects given to CommitCircuits are retained by
+// design and are not touched.)
+var poisonKey = htlcswitch.CircuitKey{ChanID: lnwireScid(0xdead_0000_beef), HtlcID: 0xdead_beef}
+
+func poisonKeystones(ks []htlcswitch.Keystone) {
+	for i := range ks {
+		ks[i] = htlcswitch.Keystone{InKey: poisonKey, OutKey: poisonKey}
+	}
+}
+
+func poisonKeys(ks []htlcswitch.CircuitKey) {
+	for i := range ks {
+		ks[i] = poisonKey
+	}
 }
 
 // Do implements seqmc.Sys.
@@ -348,6 +374,7 @@ func (s *sys) exec(o op, opStr string) {
 			ks[i] = htlcswitch.Keystone{InKey: u.inKey(k.in), OutKey: u.outKey(k.out)}
 		}
 		err := s.cm.OpenCircuits(ks...)
+		poisonKeystones(ks)
 		okErrs, applied := postM.openKs(o.ks, wfail)
 		outcome = errClass(err)
 		if applied {
@@ -424,6 +451,7 @@ func (s *sys) exec(o op, opStr string) {
 			keys[i] = u.inKey(in)
 		}
 		err := s.cm.DeleteCircuits(keys...)
+		poisonKeys(keys)
 		removed := postM.del(o.ins, wfail)
 		outcome = errClass(err)
 		if crashMode && err != nil && errors.Is(err, crashdb.ErrCrashed) {
@@ -449,6 +477,9 @@ func (s *sys) exec(o op, opStr string) {
 		outcome = "ok"
 	case "res":
 		postE.res[o.out] = true
+		outcome = "ok"
+	case "closezero":
+		postE.zeroClosed = true
 		outcome = "ok"
 	}
 
@@ -627,6 +658,9 @@ func seqAlphabet(u *universe, thorough bool) []string {
 		for id := 0; id < u.MaxID; id++ {
 			add("res %s%d", c, id)
 		}
+	}
+	if u.Scidless {
+		add("closezero")
 	}
 	// batches
 	for i := 0; i < n; i++ {
